@@ -18,6 +18,17 @@ def T(quick, thorough, floor=200, **kw):
 
 
 PROPS = {
+    "C10": T(10000, 250000,
+             rule="random non-negatively weighted multigraph (21 families, n<=7, 10%: n<=12; weight ranges 0..9, 1..2 ties, "
+                  "0..1 zero-cost cycles, 0..30) on one random encoding of 9, cost type u32/i64/f32/f64; dijkstra with and "
+                  "without goal, astar with zero/exact/random-admissible heuristics and 1-3 goals, k_shortest_path k in 1..5; "
+                  "non-trivial = >=3 nodes and >=2 edges; distinct = distinct (n, directedness, weighted edge list) hash"),
+    "C08": T(5000, 120000,
+             rule="random multigraph (21 families, n<=8, 10%: n<=13) on one random encoding of 9 (all graph types; "
+                  "Reversed/NodeFiltered/EdgeFiltered/UndirectedAdaptor views in 1/3 of the cases); walkers from a random "
+                  "start incl. move_to/reset; depth_first_search under random Continue/Prune/Break/Err scripts in the "
+                  "Control, () and Result<Control,_> flavours, whole event log checked offline by a stack automaton; "
+                  "non-trivial = >=3 nodes and >=2 edges; distinct = distinct (n, directedness, edge list) hash"),
     "C09": T(6000, 150000,
              rule="random multigraph from 21 families (n<=9, 10%: n<=14), one random encoding per algorithm group; "
                   "non-trivial = >=3 nodes and >=2 edges; distinct = distinct (n, directedness, edge list) hash"),
